@@ -46,7 +46,7 @@ PROPS['C20'] = dict(
     design='DESIGN.md 3/C20',
     technique='contract-based deductive verification (Verus) of the verbatim wrapper bodies; callees carry an assumed contract attached to their real signature and keyed by parameter name',
     level_text='Deductive proof over the real bodies of preprocess, preprocess_inner, parse_sv, parse_sv_str, parse_lib, parse_lib_str, parse_sv_pp and parse_lib_pp that each equals its callee applied to the NAMED arguments (file route = str route on the file contents = preprocess followed by parse_*_pp, strip_comments off, depths 0/0) for every flag combination, define table and include-path list. A wrapper that swaps, drops or hard-codes a flag, short-cuts a case or alters the result fails its postcondition.',
-    level_note='Frame: the crates holding the wrappers declare no static, thread_local, lazy or atomic state (gvc.stateless inventory), so the uninterpreted callee functions may depend on the named arguments and the file system only. Assumed: the ghost file system is constant during a call; preprocess_str and the four parser entry points are uninterpreted functions of their named parameters; shims for File/BufReader/PathBuf/HashMap; Verus+z3.',
+    level_note='Fourth pass: what init() resets (unit kwstack: clear_version / clear_directive empty their stacks; gvc.frame: each touches its own thread-local) is a premise of the agreement of entry points called one after the other on a thread. Frame: the crates holding the wrappers declare no static, thread_local, lazy or atomic state (gvc.stateless inventory), so the uninterpreted callee functions may depend on the named arguments and the file system only. Assumed: the ghost file system is constant during a call; preprocess_str and the four parser entry points are uninterpreted functions of their named parameters; shims for File/BufReader/PathBuf/HashMap; Verus+z3.',
     not_covered=['determinism of preprocess_str / the parsers themselves (C07)', 'wrappers are checked against uninterpreted callee functions, i.e. agreement, not correctness of the result'],
 )
 PROPS['C09'] = dict(
@@ -56,7 +56,7 @@ PROPS['C09'] = dict(
     design='DESIGN.md 3/C09',
     technique='contract-based deductive verification (Verus) of the mechanically sliced recursion skeleton (guards + recursive calls with real argument expressions) of the real functions, with a termination measure',
     level_text='Deductive proof, for all depths and all interleavings of include and macro recursion, on the recursion skeleton cut from the real preprocess / preprocess_inner / preprocess_str / resolve_text_macro_usage: a lexicographic measure over both counters decreases at every recursive call (all cycles terminate), each guard returns ExceedRecursiveLimit exactly when its counter exceeds 64, and a counter never exceeds the true nesting depth, so chains of legal depth never trip a guard.',
-    level_note='The skeleton drops everything except guards and the recursive calls (rule R-slice); sound because the slicer refuses when a depth parameter is assigned, shadowed or passed through a non-trivial expression. Callers of the public preprocess_str are assumed to pass resolve_depth <= 64 and include_depth <= 65 (every in-repo caller passes 0). Stack exhaustion is outside the claim.',
+    level_note='Fourth pass: the second sentence of the property (legal depths succeed) additionally rests on the define table coming back from an expansion / an include being adopted (unit arms, clauses also labelled C09) and on the include and macro productions of the pp grammar being the pinned ones (A-pplex, gvc.assumed; the angle-bracket file name and the token wrappers are decided by gvc.lexers). The skeleton drops everything except guards and the recursive calls (rule R-slice); sound because the slicer refuses when a depth parameter is assigned, shadowed or passed through a non-trivial expression. Callers of the public preprocess_str are assumed to pass resolve_depth <= 64 and include_depth <= 65 (every in-repo caller passes 0). Stack exhaustion is outside the claim.',
     not_covered=['that a legal chain yields the fully expanded text (C05/C10)', 'the once-per-level Include wrapping of the error (V-arms include)'],
 )
 PROPS['C18'] = dict(
@@ -78,7 +78,7 @@ PROPS['C16'] = dict(
     design='DESIGN.md 3/C16',
     technique='contract-based deductive verification (Verus) of the verbatim Iter/EventIter bodies, of every From<&..> for RefNodes conversion, of the instantiated derive templates and of get_str/get_str_trim/unwrap_*!; pre-order and balanced-event theorems as lemmas over the step contracts',
     level_text='Deductive proof for all trees: Iter::next/EventIter::next satisfy their one-step stack contracts, from which lemmas show that iteration yields the node first and then its descendants in child order, that the event view is Enter(n) . events(children) . Leave(n) (balanced, nested) and that its Enter projection is the plain iteration; every tuple/Vec/Option/Box/Paren/List conversion yields its components in field order; the derive template enumerates self.nodes / the enum payload and starts iteration at the node itself; unwrap_node!/unwrap_locate! return the first match; get_str_trim spans the first to the last leaf not under a WhiteSpace node.',
-    level_note='Assumed: RefNode is an opaque handle with finite height; vstd Vec specs and slice::reverse; the derive templates are verified on one stub struct and one stub enum instance (the template text is the same for all 1242 types); macro transcribers are verified with the immediately-invoked closure replaced by its body.',
+    level_note='Fourth pass: "source order" = field order rests on gvc.faithful (every production stores what it consumed in the order it consumed it), which is run with this check. Assumed: RefNode is an opaque handle with finite height; vstd Vec specs and slice::reverse; the derive templates are verified on one stub struct and one stub enum instance (the template text is the same for all 1242 types); macro transcribers are verified with the immediately-invoked closure replaced by its body.',
     not_covered=['that the build script generates one RefNode/AnyNode variant per derive(Node) type (the templates are verified on a five-variant instance)'],
 )
 
@@ -177,7 +177,7 @@ PROPS['C15'] = dict(
     design='DESIGN.md 3/C15',
     technique='generated nullable/manyok fixpoint over all productions, shape rules on the four top-level productions, absence of Failure producers; Verus contract on parse_sv_pp / parse_lib_pp (mode switch, Error::Parse only from a parser Err)',
     level_text='The incomplete entry points cannot return Err: their productions consist only of many0/opt steps, every repeated parser is non-nullable, and nothing in the parser crate produces Err::Failure (no cut); strict and incomplete productions are identical except many_till(description, eof) vs many0(description), so they build the same tree when strict accepts; parse_*_pp selects the incomplete parser iff allow_incomplete and reports Error::Parse only from a parser Err.',
-    level_note=GVC_NOTE + ' Partial: "appending unparsable text leaves the tree unchanged" needs prefix-independence of every look-ahead and is not decided.',
+    level_note=GVC_NOTE + ' Fourth pass: Error::Parse is constructed by parse_sv_pp / parse_lib_pp (and their private helpers) and nowhere else in the six crates (gvc.entries), so the preprocessing half of parse_*_str cannot report it; what init() resets (unit kwstack) is a premise of the equal-trees clause.  Partial: "appending unparsable text leaves the tree unchanged" needs prefix-independence of every look-ahead and is not decided.',
     not_covered=['appended unparsable tail leaves the tree unchanged', 'equality of trees relies on determinism of the productions (C07/C17)'],
 )
 PROPS['C17'] = dict(
